@@ -34,7 +34,9 @@ EXPLANATION = ("Proved (Lean, unbounded): Token::Match's documented language, th
                "Only sampled (CLI metamorphic pairs, never part of a proof): everything behind the token stream - dependence on names "
                "through ordered containers keyed by name, str() comparisons outside patterns, name-prefix tests, symbol-database "
                "definition order, value flow. Token classification (tokType/isName/varId) is assumed unchanged by the renaming.")
-THEOREMS = ["Cppcheck.C05.match_equivariant", "Cppcheck.C05.match_equivariant_compiled", "Cppcheck.C05.match_equivariant_interpreted",
+THEOREMS = ["Cppcheck.C05.lexRaw_of_layout", "Cppcheck.C05.tokens_of_layout", "Cppcheck.C05.combine_relocation", "Cppcheck.C05.lexer_layout",
+            "Cppcheck.C05.lexer_layout_lineShift", "Cppcheck.C05.executable_scope_probe_dead",
+            "Cppcheck.C05.match_equivariant", "Cppcheck.C05.match_equivariant_compiled", "Cppcheck.C05.match_equivariant_interpreted",
             "Cppcheck.C05.findmatch_equivariant", "Cppcheck.C05.renaming_equivariant", "Cppcheck.C05.all_source_patterns_equivariant",
             "Cppcheck.C05.all_source_patterns_equivariant_compiled"]
 MODULES = ["Cppcheck.Props.C05"]
@@ -605,6 +607,155 @@ def lex_nontrivial(src, out):
 
 
 
+# ---- layout tie (theorem lexer_layout on the real lexer) -------------------------------------------------------------
+def tok_elems(t):
+    """raw lexical elements of one source token (all glued): words, operator bytes, one quoted literal"""
+    if t[0] in "\"'":
+        return [("q", t)]
+    out = []
+    for m in re.finditer(r"[A-Za-z_$0-9]+|.", t, re.S):
+        w = m.group(0)
+        out.append(("d", w) if re.match(r"^[A-Za-z_$0-9]+$", w) else ("o", w))
+    return out
+
+
+def enc_elem(e):
+    k, v = e
+    if k == "n":
+        return "n"
+    return k + core.hx(v)
+
+
+GAP_WS = [" ", " ", "  ", "\t", "   ", " \t"]
+
+
+def gen_gap(rng, must, allow_nl=True):
+    """white space between two token elements: list of ("w", c) / ("n",)"""
+    r = rng.random()
+    if not must and r < 0.45:
+        return []
+    g = [("w", c) for c in rng.choice(GAP_WS)]
+    if allow_nl and rng.random() < 0.2:
+        g = [("w", c) for c in rng.choice(["", " "])] + [("n", "")] * rng.choice([1, 1, 2]) + [("w", c) for c in rng.choice(["", "  ", "\t", "    "])]
+    return g
+
+
+def gen_layout_pair(rng, toks, violate=False):
+    """two element sequences with the same token elements (comments included); the second one differs in white space only"""
+    # token elements with comments inserted as extra "tokens"
+    items = []          # each: list of raw elems (glued group) ; comments are single-element groups flagged
+    for t in toks:
+        if rng.random() < 0.08:
+            items.append(([("b", rng.choice([" c ", "", "x*y", " multi\n line "]))], "bcom"))
+        if rng.random() < 0.04:
+            items.append(([("l", rng.choice([" note", "", "/ x"]))], "lcom"))
+        items.append((tok_elems(t), "tok"))
+    def build(second, base=None):
+        es, gaps = [], []
+        for i, (grp, kind) in enumerate(items):
+            if i > 0:
+                prev_grp, prev_kind = items[i - 1]
+                a, b = prev_grp[-1], grp[0]
+                ta = ("//" + a[1]) if a[0] == "l" else ("/*" + a[1] + "*/") if a[0] == "b" else a[1]
+                tb = ("//" + b[1]) if b[0] == "l" else ("/*" + b[1] + "*/") if b[0] == "b" else b[1]
+                must = needs_space(ta, tb) or (a[0] == "o" and a[1] == "/" and b[0] in "lb")
+                if prev_kind == "lcom":
+                    g = [("n", "")] + ([("w", c) for c in rng.choice(["", "  "])] if rng.random() < 0.5 else [])
+                elif not second:
+                    g = gen_gap(rng, must)
+                else:
+                    g0 = base[i - 1]
+                    has_nl = any(k == "n" for k, _ in g0)
+                    opop = a[0] == "o" and b[0] == "o"
+                    if violate and rng.random() < 0.15:
+                        g = gen_gap(rng, must)
+                    elif has_nl:
+                        g = [("w", c) for c in rng.choice(["", " ", "\t"])] + [("n", "")] * rng.choice([1, 2, 3]) + [("w", c) for c in rng.choice(["", " ", "      ", "\t\t"])]
+                    elif not g0 and opop:
+                        g = []
+                    elif not g0:
+                        g = [] if rng.random() < 0.5 else [("w", c) for c in rng.choice(GAP_WS)]
+                    else:
+                        g = [("w", c) for c in rng.choice(GAP_WS)] if (must or opop or rng.random() < 0.6) else []
+                gaps.append(g)
+                es += g
+            es += grp
+        return es, gaps
+    es, gaps = build(False)
+    lead = [("w", c) for c in rng.choice(["", "", "  ", "\t"])]
+    es2, _ = build(True, gaps)
+    tail = [("n", "")] if rng.random() < 0.7 else []
+    return es + tail, lead + es2 + tail
+
+
+def layout_tie(ctx, res, drv, exe, token_lists, violate_share=0.2):
+    rng = ctx.rng
+    ops, meta = [], []
+    for toks in token_lists:
+        es, es2 = gen_layout_pair(rng, toks, violate=rng.random() < violate_share)
+        ops.append("layout " + " ".join(enc_elem(e) for e in es) + " | " + " ".join(enc_elem(e) for e in es2))
+    rc, out, err = core.run_lines(drv, [], ops)
+    if len(out) != len(ops):
+        res.oblig("correspondence:layout", False, "correspondence", "driver produced %d lines for %d ops: %s" % (len(out), len(ops), err[-300:]))
+        return
+    parsed, lexops = [], []
+    for o in out:
+        m = re.match(r"^ok=(\d) ok2=(\d) rel=(\d) pres=(\d) dots=(\d) src=(\S+) src2=(\S+) \| (T[^|]*) \| (T[^|]*) \| ([TU][^|]*) \| ([TU][^|]*)$", o)
+        if not m:
+            res.oblig("correspondence:layout", False, "correspondence", "driver line: " + o[:300])
+            return
+        parsed.append(m.groups())
+        lexops += ["lex " + m.group(6), "tokens " + m.group(6), "lex " + m.group(7), "tokens " + m.group(7)]
+    rc, lout, err = core.run_lines(exe, [], lexops)
+    if len(lout) != len(lexops):
+        res.oblig("correspondence:layout", False, "correspondence", "harness produced %d lines for %d ops" % (len(lout), len(lexops)))
+        return
+    bad_place, bad_tokens, concl_fail = [], [], []
+    nhyp = 0
+    for k, g in enumerate(parsed):
+        ok, ok2, rel, pres, dots, src, src2, raw1, raw2, pred1, pred2 = g
+        real_raw1, real_tok1, real_raw2, real_tok2 = [x.rstrip() for x in lout[4 * k:4 * k + 4]]
+        s1 = core.unhx(src).decode("latin-1")
+        # (i) theorem lexRaw_of_layout on the real lexer: well-formed sequence => the raw tokens the real lexer would produce are placeE
+        #     (the real list is only observable after combineOperators, so compare the model's `tokens` of the rendered text instead)
+        if pred1.rstrip() != "U" and pred1.rstrip() != real_tok1:
+            bad_tokens.append((s1, pred1, real_tok1))
+        if pred2.rstrip() != "U" and pred2.rstrip() != real_tok2:
+            bad_tokens.append((core.unhx(src2).decode("latin-1"), pred2, real_tok2))
+        hyp = ok == "1" and ok2 == "1" and rel == "1" and pres == "1" and dots == "1"
+        res.count("layout:hypotheses-" + ("hold" if hyp else "fail"))
+        # (ii) conclusion of lexer_layout evaluated on the REAL token streams
+        p1 = [t.split(":")[1:3] for t in raw1.split()[1:]]
+        p2 = [t.split(":")[1:3] for t in raw2.split()[1:]]
+        phi = {tuple(a): tuple(b) for a, b in zip(p1, p2)} if len(p1) == len(p2) else None
+        def reloc(tokline):
+            outt = []
+            for t in tokline.split()[1:]:
+                f = t.split(":")
+                q = phi.get((f[1], f[2])) if phi else None
+                if q is None:
+                    return None
+                outt.append(":".join([f[0], q[0], q[1]] + f[3:]))
+            return "T" + ("" if not outt else " " + " ".join(outt))
+        concl = phi is not None and reloc(real_tok1) == real_tok2
+        res.case("layout|" + src + "|" + src2, len(p1) >= 3 and src != src2,
+                 dict(tie="layout", src=s1[:160], src2=core.unhx(src2).decode("latin-1")[:160], hypotheses=hyp, conclusion_on_real_lexer=concl) if k % max(1, len(parsed) // 3) == 0 else None)
+        if hyp:
+            nhyp += 1
+            if not concl:
+                concl_fail.append((s1, core.unhx(src2).decode("latin-1"), real_tok1, real_tok2))
+            else:
+                res.traces_validated += 1
+        else:
+            res.count("layout:conclusion-%s-without-hypotheses" % ("holds" if concl else "fails"))
+    res.oblig("correspondence:layout-model-tokens-vs-real", not bad_tokens, "correspondence",
+              "" if not bad_tokens else "%d differ; first src=%r model=%s real=%s" % (len(bad_tokens), bad_tokens[0][0][:200], bad_tokens[0][1][:300], bad_tokens[0][2][:300]))
+    res.oblig("layout:generator-meets-hypotheses", nhyp * 3 >= len(parsed), "correspondence", "%d of %d generated pairs satisfy the hypotheses of lexer_layout" % (nhyp, len(parsed)))
+    for (a, b, t1, t2) in concl_fail[:5]:
+        res.violation("lexer_layout fails on the real lexer although its hypotheses hold: src=%r edit=%r" % (a[:200], b[:200]),
+                      dict(kind="layoutpair", src=core.hx(a), src2=core.hx(b), tokens=t1, tokens2=t2), concrete=True, key=None)
+
+
 # ---- the check --------------------------------------------------------------------------------------------------------
 def cached_extract(ctx):
     """extraction is a pure function of lib/*.cpp, lib/*.h, cfg/std.cfg and tools/matchcompiler.py: memoise on their content"""
@@ -924,12 +1075,27 @@ def run(ctx, res):
     file_tie(ctx, res, exe, srcs, impl)
 
     tm["lexer"] = round(time.time() - t0, 1); t0 = time.time()
+    tm["lexer"] = round(time.time() - t0, 1); t0 = time.time()
+    # ---- C2: theorem lexer_layout against the real lexer ---------------------------------------------------------------
+    tl = []
+    for i in range(300 if thorough else 60):
+        if i % 2 == 0:
+            pr = gen_program(rng, allres)
+            lines = layout_default(pr)
+            k = rng.randrange(len(lines))
+            tl.append([t for ln in lines[k:k + 6] for t in ln])
+        else:
+            tl.append([rng.choice(LEX_NAMES[:8] + ["1", "42", "0x1F", "1.5", "2.5e+3", "1e-5", ".5", "7.", "->", "++", "--", "<<=", ">>=", "&&", "||", "==", "!=", "<=",
+                                   ">=", "+=", "::", "...", "<<", ">>"] + list("+-*/%&|^~!<>=?:;,.()[]{}") + ['"s t"', "'c'", r'"q"q"'])
+                       for _ in range(rng.choice([3, 6, 10, 16]))])
+    layout_tie(ctx, res, drv, exe, tl)
+    tm["layout"] = round(time.time() - t0, 1); t0 = time.time()
     # ---- C3: pattern matching under renaming ---------------------------------------------------------------------------
     match_tie(ctx, res, drv, exe, ex, lean_like, allres, 400 if thorough else 90, 6 if thorough else 4)
 
     tm["match"] = round(time.time() - t0, 1); t0 = time.time()
     # ---- M: CLI metamorphic pairs ------------------------------------------------------------------------------------------
-    n_prog = 220 if thorough else 22
+    n_prog = 220 if thorough else 36
     kinds = ["layout:spaces", "layout:comments", "layout:lines", "layout:oneline", "layout:mixed", "layout:crlf", "rename", "reorder"]
     pairs = []
     for i in range(n_prog):
@@ -946,6 +1112,30 @@ def run(ctx, res):
     res.extra["cli_pairs"] = len(pairs)
     res.extra["cli_seconds"] = round(time.time() - t0, 1)
     report_meta(ctx, res, trip)
+    # ---- violation search when an obligation broke and no concrete failing input is known yet ---------------------------------
+    if any(not o["ok"] for o in res.obligations) and not any(v["concrete"] for v in res.violations):
+        res.extra["search"] = "wider layout / CLI sample after a broken obligation"
+        tl2 = []
+        for i in range(400):
+            pr = gen_program(rng, allres)
+            lines = layout_default(pr)
+            k = rng.randrange(len(lines))
+            tl2.append([t for ln in lines[k:k + 8] for t in ln])
+        res2 = core.Result(ctx, res.level)
+        try:
+            layout_tie(ctx, res2, drv, exe, tl2, violate_share=0.0)
+            srcs2 = [gen_lex_source(rng, wild=False) for _ in range(3000)]
+            rc, b1, _ = core.run_lines(exe, [], ["lex " + core.hx(t) for t in srcs2])
+            file_tie(ctx, res2, exe, srcs2, b1)
+        except Exception as ex_:
+            res.extra["search_error"] = str(ex_)[:300]
+        res.violations += res2.violations
+        pairs2 = []
+        for i in range(40):
+            prog = gen_program(rng, allres)
+            for kind in kinds:
+                pairs2.append(make_rewrite(rng, prog, kind, allres))
+        report_meta(ctx, res, meta_pairs(ctx, res, pairs2, "search"))
     res.notes.append("outside the model (only sampled by the CLI pairs): name dependence through ordered containers, str() comparisons outside patterns, "
                      "definition-order dependence of the symbol database / value flow")
 
@@ -964,6 +1154,15 @@ def replay(ctx, res, rp):
         rc, a, err = core.run_lines(exe, [d], ["lex " + rp["src"], "lexf " + rp["src"]])
         same = len(a) == 2 and a[0] == a[1]
         print("replay: buffer=%s file=%s" % (a[0] if a else "?", a[1] if len(a) > 1 else "?"))
+        if not same:
+            print("VIOLATION property=C05 replay=(replayed)")
+        return 0 if same else 1
+    if rp.get("kind") == "layoutpair":
+        exe = ctx.harness("c05")
+        rc, a, err = core.run_lines(exe, [], ["tokens " + rp["src"], "tokens " + rp["src2"]])
+        strs = [[t.split(":")[0] for t in x.split()[1:]] for x in a]
+        same = len(strs) == 2 and strs[0] == strs[1]
+        print("replay: token spellings of the two layouts %s" % ("EQUAL" if same else "DIFFER"))
         if not same:
             print("VIOLATION property=C05 replay=(replayed)")
         return 0 if same else 1
